@@ -2,5 +2,8 @@ SPECIFICATION Spec
 CONSTANTS
   MaxR = 2
   Langs = {2, 3}
+  Kinds = {"cheap", "costly", "picky", "fail"}
+  ScriptLocs = {"witness", "reference", "missing"}
+  DatumKinds = {"inline", "witness", "missing", "none"}
 INVARIANTS Accounting FailsIff Emit
 CHECK_DEADLOCK FALSE
